@@ -232,6 +232,81 @@ def a_fragment_count_ceil(prog):
         return False, "fragment count divisor is %s, not mtu - %d (the per-fragment payload budget of next())" % (symx.show(b_), hdr)
     return True, "total = ceil(%s / %s), header %d bytes" % (symx.show(a), symx.show(b_), hdr)
 
+
+def a_frame_host_bounded(prog):
+    """every host name that can sit in Frame.addr is at most 253 bytes long, so `host.len() + 2` fits the one-byte length of
+    frames::encode_address.  Sources of Frame.addr are enumerated from the assignments to the field."""
+    from .panics import upper_bound, _ub_from_facts
+    sites = []
+    for f in prog.fns.values():
+        if f.crate != "redproxy_rs":
+            continue
+        for b in f.reachable:
+            for st in f.stmts(b):
+                if st["k"] != "assign":
+                    continue
+                rv = st["rv"]
+                src = None
+                if "f:addr" in st["lhs"][1:] and "frames::Frame" in str(f.ty(f.locals[st["lhs"][0]]["ty"])["s"]):
+                    src = rv["a"] if rv["k"] == "use" else None
+                    sites.append((f, b, src))
+                elif rv["k"] == "agg" and rv.get("def", "").endswith("frames::Frame") and "addr" in rv.get("fields", []):
+                    sites.append((f, b, rv["ops"][rv["fields"].index("addr")]))
+    if len(sites) < 6:
+        return False, "only %d assignments to Frame.addr found (anchor moved)" % len(sites)
+    decoders = set()
+    kinds = []
+    for f, b, src in sites:
+        l = op_base(src) if src is not None else None
+        if l is None:
+            return False, "Frame.addr assigned from an unrecognised value in %s" % f.path
+        tr = f.trace(l, through_calls=[r"Try::branch$"])
+        last = tr[-1] if tr else None
+        if last and last[0] == "agg" and last[1].get("variant") == "None":
+            kinds.append("none")
+            continue
+        if last and last[0] == "call" and re.search(r"frames::decode_address$", last[1].name or ""):
+            decoders.add(prog.one(r"^common::frames::decode_address$"))
+            kinds.append("decode_address")
+            continue
+        if last and last[0] == "agg" and last[1].get("variant") == "Some":
+            pl = op_base(last[1]["ops"][0])
+            ptr = f.trace(pl, through_calls=[r"convert::Into::into$", r"convert::From::from$", r"clone::Clone::clone$", r"common::try_map_v4_addr$", r"into_unspecified$"])
+            txt = str(ptr)
+            tys = " ".join(f.ty(f.locals[x]["ty"])["s"] for x in [pl] + [i[0] for k, i in ptr if k in ("ref", "place")] if x < len(f.locals))
+            if "f:target" in txt:
+                kinds.append("session-target")      # the context's / listener's target: refused by process_request unless is_encodable (C03 V1)
+                continue
+            if "SocketAddr" in tys or re.search(r"recv_from|recv_msg|SocketAddr", txt):
+                kinds.append("ip")
+                continue
+            if len(f.defs.get(pl, ())) > 1 or "multi" in txt:
+                decoders.add(f)                      # match over address types inside a decoder: checked below
+                kinds.append("decoder:" + f.path)
+                continue
+            return False, "Frame.addr in %s is set from a value that is neither an IP address, a session target nor a checked decoder (%s)" % (f.path, txt[:120])
+        return False, "Frame.addr assigned from an unrecognised value in %s" % f.path
+    nstr = 0
+    for d in decoders:
+        for c in d.calls:
+            if not re.search(r"string::String::(from_utf8|from_utf8_lossy)$|str::from_utf8$", c.path or ""):
+                continue
+            nstr += 1
+            tr = d.trace(op_base(c.args[0]), through_calls=[r"Deref::deref$", r"to_vec$", r"AsRef", r"Bytes::split_to$|BytesMut::split_to$"])
+            sp = [i for k, i in tr if k == "call" and re.search(r"(Bytes|BytesMut)::split_to$", i.path or "")]
+            if not sp:
+                return False, "%s builds a host name from bytes that are not cut off with split_to(len)" % d.path
+            n = sp[0].args[1]
+            ub = upper_bound(d, n)
+            fb = _ub_from_facts(d, n, sp[0].bb)
+            cands = [x for x in (ub, fb) if x is not None]
+            if not cands or min(cands) > 253:
+                return False, "%s accepts a host name of up to %s bytes: frames::encode_address stores `len + 2` in one byte, so a name longer " \
+                              "than 253 bytes is re-encoded with a truncated length and the next hop reads another destination" % (d.path, min(cands) if cands else "unbounded")
+    if nstr < 2:
+        return False, "host-name decoders not found (expected decode_address and decode_socks_frame)"
+    return True, "%d assignments to Frame.addr: %s; %d host-name decoders bound the name to <= 253 bytes" % (len(sites), sorted(set(kinds)), nstr)
+
 # --------------------------------------------------------------------------- socks / target
 
 def a_socks_client_method_guard(prog):
